@@ -178,8 +178,6 @@ theorem core_periodic_direction {m : ℕ} (tol : K) (htol : 0 < tol) (c1 c2 : Bo
     (s a : Obj K × Obj K) (hw1 : C06.WF s.1 m) (hw2 : C06.WF s.2 m) (ha : stageReparam s i = .ok a)
     (hb1 : a.1.basis i = openBasis p1 (clampedU x0 xl (L.map (·.1))) (clampedM p1 (L.map (·.2.1))))
     (k : ℕ) (hk : (a.2.basis i).periodic = (k : Int))
-    (hguard : (a.2.basis i).order + k ≤ (a.2.basis i).numFunctions)
-    (hseam : (a.2.basis i).start < (a.2.basis i).kn (a.2.basis i).order)
     (hb2 : ∀ o2, a.2.lowerPeriodic (-1) i = .ok o2 →
       o2.basis i = openBasis p2 (clampedU x0 xl (L.map (·.1))) (clampedM p2 (L.map (·.2.2))))
     (H_raise₁ : p1 < max p1 p2 → RaisesTo tol c1 m i p1 (max p1 p2) x0 xl L (·.1) (·.2.1) a.1)
@@ -199,7 +197,7 @@ theorem core_periodic_direction {m : ℕ} (tol : K) (htol : 0 < tol) (c1 c2 : Bo
   have hre2 := reparam_rescaled hw2 i ha2
   obtain ⟨b, c, r, hSP, _, _, hSO, hSM, hr1, hr2, hs1, hs2, hkr, hwr1, hwr2⟩ :=
     periodic_vs_open_direction tol htol c1 c2 p1 p2 hp1 hp2 x0 xl L hsep i hi a hre1.2.1 hre2.2.1 hb1 k hk
-      hguard hseam hb2 H_raise₁ H_raise₂
+      hb2 H_raise₁ H_raise₂
   have hod1 := reparamDir_onlyDir ha1
   have hod2 := reparamDir_onlyDir ha2
   refine ⟨r, identicalDir_of_stages ha hSP hSO hSM, hr1, hr2, fun j hj => ?_, hre1.1.trans_same hs1,
@@ -215,8 +213,6 @@ theorem core_periodic_curves (tol : K) (htol : 0 < tol) (c1 c2 : Bool) (p1 p2 : 
     (s a : Obj K × Obj K) (hw1 : C06.WF s.1 1) (hw2 : C06.WF s.2 1) (ha : stageReparam s 0 = .ok a)
     (hb1 : a.1.basis 0 = openBasis p1 (clampedU x0 xl (L.map (·.1))) (clampedM p1 (L.map (·.2.1))))
     (k : ℕ) (hk : (a.2.basis 0).periodic = (k : Int))
-    (hguard : (a.2.basis 0).order + k ≤ (a.2.basis 0).numFunctions)
-    (hseam : (a.2.basis 0).start < (a.2.basis 0).kn (a.2.basis 0).order)
     (hb2 : ∀ o2, a.2.lowerPeriodic (-1) 0 = .ok o2 →
       o2.basis 0 = openBasis p2 (clampedU x0 xl (L.map (·.1))) (clampedM p2 (L.map (·.2.2)))) :
     ∃ r, identicalDir tol c1 c2 s 0 = .ok r
@@ -235,11 +231,11 @@ theorem core_periodic_curves (tol : K) (htol : 0 < tol) (c1 c2 : Bool) (p1 p2 : 
       exact_mod_cast this
     nlinarith
   obtain ⟨r, h1, h2, h3, _, h5, h6, _, _⟩ := core_periodic_direction (m := 1) tol htol c1 c2 p1 p2 hp1 hp2
-    x0 xl L (separated_mono hfac hgap) 0 (by decide) s a hw1 hw2 ha hb1 k hk hguard hseam hb2
+    x0 xl L (separated_mono hfac hgap) 0 (by decide) s a hw1 hw2 ha hb1 k hk hb2
     (fun _ => raisesTo_curve tol htol p1 (max p1 p2) hp1 (le_max_left _ _) x0 xl L (·.1) (·.2.1)
       (fun e he => (hm e he).1) hgap a.1 hwa1 hb1 c1)
     (fun _ o2 hl => by
-      obtain ⟨o2', hl', hwo2, _⟩ := lowerPeriodic_sameMapOn hwa2 0 k hk hguard hseam (-1) (le_refl _) (by omega)
+      obtain ⟨o2', hl', hwo2, _⟩ := lowerPeriodic_sameMapOn hwa2 0 k hk (-1) (le_refl _) (by omega)
       have : o2' = o2 := by rw [hl'] at hl; injection hl
       subst this
       exact raisesTo_curve tol htol p2 (max p1 p2) hp2 (le_max_right _ _) x0 xl L (·.1) (·.2.2)
